@@ -1134,3 +1134,80 @@ def fold_int_predicate(expr, quantity, value):
         return ev(expr)
     except _NoFold as ex:
         raise AnalysisError("predicate not folded: `%s` in `%s`" % (ex, ast.unparse(expr)))
+
+
+def must_pass(g, target_id, through_ids):
+    """every normal path from the entry to `target_id` passes one of `through_ids`"""
+    from vlib.flow import reachable_avoiding
+    through = set(through_ids)
+    if target_id in through:
+        return True
+    return target_id not in reachable_avoiding(g, g.entry.id, through, lambda l: l != "exc")
+
+
+QUEUE_PUTS = ("self._queue.put", "self._queue.put_nowait")      # both queue the item or raise queue.Full
+
+
+# ---------------------------------------------------------------------------
+# values the JSON backend always accepts
+# ---------------------------------------------------------------------------
+def _stringish(e):
+    if isinstance(e, ast.Constant):
+        return isinstance(e.value, str)
+    if isinstance(e, ast.JoinedStr):
+        return True
+    if isinstance(e, ast.Call) and isinstance(e.func, ast.Attribute) and e.func.attr == "format" and _stringish(e.func.value):
+        return True
+    if isinstance(e, ast.BinOp) and isinstance(e.op, (ast.Mod, ast.Add)) and _stringish(e.left):
+        return True
+    if isinstance(e, ast.Call) and isinstance(e.func, ast.Name) and e.func.id in ("str", "repr") and len(e.args) == 1:
+        return True
+    return False
+
+
+def json_safe_expr(prog, fi, node, e, depth=0):
+    """the expression denotes None / a bool / a number / a string, or a list / dict display (string keys) of such values - whatever
+    the inputs: constants, string-typed expressions, displays of them, locals bound only to such values, and package functions all
+    of whose return values are such"""
+    from vlib.cfg import cfg_of as _cfg
+    from vlib import prov as _prov, q as _q
+    if e is None or depth > 5:
+        return e is None
+    if isinstance(e, ast.Constant):
+        return e.value is None or isinstance(e.value, (bool, int, float, str))
+    if _stringish(e):
+        return True
+    if isinstance(e, ast.Dict):
+        return all(k is not None and isinstance(k, ast.Constant) and isinstance(k.value, str) for k in e.keys) and \
+            all(json_safe_expr(prog, fi, node, v, depth + 1) for v in e.values)
+    if isinstance(e, (ast.List, ast.Tuple)):
+        return all(not isinstance(x, ast.Starred) and json_safe_expr(prog, fi, node, x, depth + 1) for x in e.elts)
+    if isinstance(e, ast.IfExp):
+        return json_safe_expr(prog, fi, node, e.body, depth + 1) and json_safe_expr(prog, fi, node, e.orelse, depth + 1)
+    if isinstance(e, ast.Name):
+        g = _cfg(fi)
+        defs = _prov.rd_of(g).get(node.id, {}).get(e.id)
+        if not defs:
+            return False
+        for d in defs:
+            dn = g.nodes[d]
+            if not (dn.kind == "stmt" and isinstance(dn.ast, ast.Assign) and len(dn.ast.targets) == 1 and isinstance(dn.ast.targets[0], ast.Name)):
+                return False
+            if not json_safe_expr(prog, fi, dn, dn.ast.value, depth + 1):
+                return False
+        return True
+    if isinstance(e, ast.Call):
+        r = prog.resolve_call(fi, e)
+        hf = r if hasattr(r, "node") else None
+        if hf is None:
+            return False
+        srcs = list(_q.return_sources(hf))
+        return bool(srcs) and all(hv is None or json_safe_expr(prog, hf, hn, hv, depth + 1) for (hn, hv) in srcs)
+    return False
+
+
+def carried_by_exception(site):
+    """the code of this Fault site is an attribute of the exception its handler caught (`Fault(ex.code, ex.message)`): the value
+    is decided at the raise sites of that exception class, which the Fault-site rules do not follow"""
+    t = site.origin("code", 0)
+    return t is not None and any(a[0] == "attr" and a[1][0] == "exc" for a in prov.value_alts(t))
